@@ -1296,7 +1296,7 @@ class HybridSim(ObjSim):
         "stub": ObjSim.components["stub"],
     }
     not_claimed = {
-        "C18": ["pure-Python attributes added to dressed objects are not modelled", "assignment of reference-bearing nested objects and moves of objects that are reference targets are not generated (meaning not documented)"],
+        "C18": ["pure-Python attributes added to dressed objects are not modelled", "moves of objects that are reference targets are not generated (refusing or moving are both defensible)"],
         "C19": ["_skip_in_to_dict / _store_in_to_dict customisation hooks"],
     }
 
